@@ -13,7 +13,9 @@
 EXTENDS Integers, Sequences, FiniteSets, TLC
 
 \* ---- parameter shapes (each is concretised by harness/src/bin/c15.rs: fn concretise)
-OpenOkArgs  == {"ok", "ok_sort", "ok_nocollect", "ok_onepass", "ok_plugins", "ok_zip"}
+OpenOkArgs  == {"ok", "ok_sort", "ok_nocollect", "ok_onepass", "ok_plugins", "ok_zip", "ok_huge", "ok_huge_onepass"}
+HugeOpenArgs == {"ok_huge", "ok_huge_onepass"}     \* a log of > 512 Ki messages (more than the bounded channels hold); scripted sessions only
+OnePassOpenArgs == {"ok_onepass", "ok_huge_onepass"}
 OpenBadArgs == {"noarg", "badjson", "nofiles", "emptyfiles", "fileswrongtype", "filesnonstring", "missingfile",
                 "nodlt", "badcollect", "pluginswrongtype", "pluginnotobj"}
 StreamOkArgs  == {"ok", "ok_filt", "ok_text", "ok_onepass", "ok_defaults", "ok_emptywin"}
@@ -33,7 +35,7 @@ PlainArgs     == {"", "junk"}                  \* close / pause / resume / stop 
 
 TargetVerbs == {"stop", "stream_change_window", "stream_binary_search", "stream_search"}
 
-FileModeOf(arg) == CASE arg = "ok_nocollect" -> "nocollect" [] arg = "ok_onepass" -> "onepass" [] OTHER -> "all"
+FileModeOf(arg) == CASE arg = "ok_nocollect" -> "nocollect" [] arg \in OnePassOpenArgs -> "onepass" [] OTHER -> "all"
 HasPlugin(arg) == arg = "ok_plugins"
 Both == {"ok", "err"}
 
